@@ -26,6 +26,7 @@ Definition in_range (n i : Z) : bool := (0 <=? i) && (i <? n).
 (* utils._downcast_index_array(index_array, size): for size <= 65535 out-of-range indices (negative or >= size) are
    replaced by the sentinel [size] and the array is cast to uint16 (C cast = reduction mod 2^16); larger axes keep int32.
    [downcast_with false] is the variant without the `index_array < 0` part of the mask (refuted in the proofs). *)
+Definition uint16_max : Z := 65535.        (* np.iinfo(np.uint16).max *)
 Definition downcast_with (mask_negative : bool) (size idx : Z) : Z :=
   if size <=? 65535 then
     (if (mask_negative && (idx <? 0)) || (size <=? idx) then size else idx) mod 65536
